@@ -56,6 +56,11 @@ pub struct CaseB {
   /// hybrid only: the OS-level read under the k-th next_keyboard (false) / next_tablet (true)
   /// call of the real driver fails with EBADF
   pub read_fault: Option<(usize, bool)>,
+  /// hybrid only: the loop's poll goes through the shipped RealDriver::poll with the loop's own
+  /// time-out; the simulated kernel answers the wait system call (epoll_wait, poll, ...) underneath
+  pub syspoll: bool,
+  /// syspoll only: the k-th wait system call fails (kind 0 = EBADF, 1 = EINVAL, 2 = EFAULT)
+  pub poll_fault: Option<(usize, u8)>,
 }
 
 impl CaseB {
@@ -65,7 +70,7 @@ impl CaseB {
       "tab": self.tab.iter().map(|(t, on)| json!([t, on])).collect::<Vec<_>>(),
       "has_tablet": self.has_tablet,
       "cfg": {"p_eintr": self.cfg.p_eintr, "p_spurious_timeout": self.cfg.p_spurious_timeout, "p_spurious_ready": self.cfg.p_spurious_ready, "p_latency": self.cfg.p_latency, "p_oversleep": self.cfg.p_oversleep, "max_interrupts": self.cfg.max_interrupts},
-      "tape": self.tape, "fail_at": self.fail_at, "extra_ticks": self.extra_ticks, "kbd_end_at": self.kbd_end_at, "tab_end_at": self.tab_end_at, "hybrid": self.hybrid, "write_fault": self.write_fault.map(|(k, kind)| vec![k as u64, kind as u64]), "read_fault": self.read_fault.map(|(k, t)| json!([k, t]))})
+      "tape": self.tape, "fail_at": self.fail_at, "extra_ticks": self.extra_ticks, "kbd_end_at": self.kbd_end_at, "tab_end_at": self.tab_end_at, "hybrid": self.hybrid, "write_fault": self.write_fault.map(|(k, kind)| vec![k as u64, kind as u64]), "read_fault": self.read_fault.map(|(k, t)| json!([k, t])), "syspoll": self.syspoll, "poll_fault": self.poll_fault.map(|(k, kind)| vec![k as u64, kind as u64])})
   }
   pub fn from_json(v: &Value) -> Result<CaseB, String> {
     let layout = layout_from_json(v.get("layout").ok_or("case: no layout")?)?;
@@ -86,7 +91,9 @@ impl CaseB {
       kbd_end_at: v.get("kbd_end_at").and_then(|x| x.as_u64()), tab_end_at: v.get("tab_end_at").and_then(|x| x.as_u64()),
       hybrid: v.get("hybrid").and_then(|x| x.as_bool()).unwrap_or(false),
       write_fault: v.get("write_fault").and_then(|x| x.as_array()).and_then(|a| if a.len() == 2 { Some((a[0].as_u64().unwrap_or(0) as usize, a[1].as_u64().unwrap_or(0) as u8)) } else { None }),
-      read_fault: v.get("read_fault").and_then(|x| x.as_array()).and_then(|a| if a.len() == 2 { Some((a[0].as_u64().unwrap_or(0) as usize, a[1].as_bool().unwrap_or(false))) } else { None }) })
+      read_fault: v.get("read_fault").and_then(|x| x.as_array()).and_then(|a| if a.len() == 2 { Some((a[0].as_u64().unwrap_or(0) as usize, a[1].as_bool().unwrap_or(false))) } else { None }),
+      syspoll: v.get("syspoll").and_then(|x| x.as_bool()).unwrap_or(false),
+      poll_fault: v.get("poll_fault").and_then(|x| x.as_array()).and_then(|a| if a.len() == 2 { Some((a[0].as_u64().unwrap_or(0) as usize, a[1].as_u64().unwrap_or(0) as u8)) } else { None }) })
   }
   pub fn hash(&self) -> u64 {
     let mut h = H::new(); hash_layout(&mut h, &self.layout);
@@ -95,6 +102,7 @@ impl CaseB {
     h.u(0xEF); for v in &self.tape { h.u(*v as u64); }
     h.u(self.fail_at.map(|x| x as u64 + 1).unwrap_or(0)); h.u(self.extra_ticks as u64);
     h.u(self.kbd_end_at.map(|x| x + 1).unwrap_or(0)); h.u(self.tab_end_at.map(|x| x + 1).unwrap_or(0)); h.u(self.hybrid as u64); h.u(self.has_tablet as u64); h.u(self.write_fault.map(|(k, kind)| (k as u64) * 4 + kind as u64 + 1).unwrap_or(0)); h.u(self.read_fault.map(|(k, t)| (k as u64) * 2 + t as u64 + 1).unwrap_or(0));
+    if self.syspoll { h.u(0x5e5); h.u(self.poll_fault.map(|(k, kind)| (k as u64) * 4 + kind as u64 + 1).unwrap_or(0)); }
     h.fin()
   }
 }
@@ -145,6 +153,7 @@ pub struct SimStats {
   pub order_flipped: u64, pub both_devices_ready: u64, pub kbd_unplugged: u64, pub tab_unplugged: u64, pub arrival_during_drain: u64,
   pub backoff_sleeps: u64, pub multi_event_wakeups: u64, pub max_events_one_wakeup: u64, pub timer_ticks: u64, pub trace_cap_hit: u64,
   pub os_write_fault: [u64; 3], pub os_read_fault: u64, pub real_polls_compared: u64,
+  pub os_poll_fault: [u64; 3], pub sys_waits: u64, pub sys_wait_timeouts: u64, pub sys_wait_eintr: u64, pub sys_wait_events: u64, pub sys_stale_dropped: u64, pub sys_fabricated_ready: u64, pub sys_polls_through_real_driver: u64, pub sys_subms_truncated: u64,
 }
 
 pub trait ByteLayer {
@@ -174,7 +183,17 @@ pub trait ByteLayer {
   fn unplug(&mut self, tablet: bool);
   /// the device is unplugged: its descriptor shows a hang-up (queued records stay readable)
   fn hangup(&mut self, tablet: bool);
+  /// syspoll runs: the real driver is taken out for the duration of its own `poll` call (the
+  /// simulated kernel underneath feeds the pipes of this layer meanwhile) and put back afterwards
+  fn take_driver(&mut self) -> Option<VerifRealDriver> { None }
+  fn put_driver(&mut self, _d: VerifRealDriver) {}
+  /// (keyboard, tablet switch) descriptors the real driver reads from
+  fn device_fds(&self) -> (i32, i32) { (-1, -1) }
 }
+
+/// what the simulated kernel answered the wait system call of the current poll
+#[derive(Clone, Debug, PartialEq)]
+enum KAns { Events(Vec<VDevice>), Zero, Eintr, Error }
 
 pub struct Sim<'a> {
   pub tape: Tape,
@@ -209,6 +228,12 @@ pub struct Sim<'a> {
   pub bytes: Option<&'a mut dyn ByteLayer>,
   pub byte_error: Option<String>,
   cap: usize,
+  syspoll: bool,
+  poll_fault: Option<(usize, u8)>,
+  sys_waits_done: usize,
+  sys_asked: Option<Duration>,
+  sys_answer: Option<KAns>,
+  sys_stall: bool,
 }
 
 impl<'a> Sim<'a> {
@@ -220,7 +245,8 @@ impl<'a> Sim<'a> {
       kbd_ended: false, tab_ended: false, kbd_end_at: case.kbd_end_at, tab_end_at: if case.has_tablet { case.tab_end_at } else { None }, extra_ticks: case.extra_ticks, interrupts: 0, in_drain: false, write_fault: if case.hybrid { case.write_fault } else { None }, read_fault: if case.hybrid { case.read_fault } else { None }, kbd_reads_done: 0, tab_reads_done: 0, sends_done: 0, hw_failed: false, kbd_sabotaged: false, tab_sabotaged: false, kbd_hup_checked: false, tab_hup_checked: false,
       stats: SimStats::default(), bytes, byte_error: None,
       // runaway guard; scaled for marathon scripts
-      cap: TRACE_CAP.max(10 * (case.kbd.len() + case.tab.len()) + 1000) }
+      cap: TRACE_CAP.max(10 * (case.kbd.len() + case.tab.len()) + 1000),
+      syspoll: case.hybrid && case.syspoll, poll_fault: if case.hybrid && case.syspoll { case.poll_fault } else { None }, sys_waits_done: 0, sys_asked: None, sys_answer: None, sys_stall: false }
   }
   fn now(&self) -> u64 { sim_now_us() }
   /// move the clock to `to` (never backwards) and deliver everything that has arrived by then
@@ -340,6 +366,187 @@ impl<'a> Sim<'a> {
   }
 }
 
+// ------------------------------------------------------------------------------------------
+// syspoll runs: the loop's poll is the shipped RealDriver::poll, called with the loop's own
+// time-out. The wait system call it makes underneath (epoll_wait through mio; poll/ppoll for a
+// driver rewritten on top of those) is answered by the simulated kernel below: it moves the
+// simulated clock, delivers arrivals into the pipes, interrupts the call with EINTR, lets it time
+// out, fabricates a spurious readiness report, or fails it — and for "what is ready" it asks the
+// real kernel with a zero time-out, so readiness itself is never modelled, only time.
+impl<'a> Sim<'a> {
+  unsafe fn wait_trampoline(ctx: *mut (), call: &crate::sysseam::WaitCall, timeout_ms: libc::c_int) -> libc::c_int {
+    let sim = &mut *(ctx as *mut Sim<'static>);
+    sim.sys_wait(call, timeout_ms)
+  }
+
+  fn devices_in_answer(&self, call: &crate::sysseam::WaitCall, n: libc::c_int) -> Vec<VDevice> {
+    let (kfd, tfd) = self.bytes.as_ref().map(|b| b.device_fds()).unwrap_or((-1, -1));
+    let mut v = vec![];
+    unsafe {
+      match call {
+        crate::sysseam::WaitCall::Epoll { events, .. } => {
+          let kd = crate::sysseam::epoll_registration(kfd).map(|r| r.1); let td = crate::sysseam::epoll_registration(tfd).map(|r| r.1);
+          for i in 0..n.max(0) as usize { let ev = std::ptr::read_unaligned(events.add(i)); let d = ev.u64; if Some(d) == kd { v.push(VDevice::Keyboard); } else if Some(d) == td { v.push(VDevice::Tablet); } }
+        }
+        crate::sysseam::WaitCall::Poll { fds, nfds } => {
+          for i in 0..*nfds as usize { let f = std::ptr::read_unaligned(fds.add(i)); if f.revents != 0 { if f.fd == kfd { v.push(VDevice::Keyboard); } else if f.fd == tfd { v.push(VDevice::Tablet); } } }
+        }
+      }
+    }
+    v
+  }
+
+  /// The simulated kernel's answer to one wait system call made by the driver under test.
+  fn sys_wait(&mut self, call: &crate::sysseam::WaitCall, timeout_ms: libc::c_int) -> libc::c_int {
+    use crate::sysseam::set_errno;
+    self.stats.sys_waits += 1;
+    // a wait that is longer than what the loop asked for can never be right (a shorter one can: a
+    // driver may wait in slices, so earliness is judged when its poll returns)
+    if let Some(d) = self.sys_asked {
+      let ceil_ms = (d.as_micros() + 999) / 1000;
+      if d.as_micros() % 1000 != 0 && (timeout_ms as i128) < ceil_ms as i128 && timeout_ms >= 0 { self.stats.sys_subms_truncated += 1; }
+      if timeout_ms < 0 || timeout_ms as u128 > ceil_ms + 1 {
+        if self.byte_error.is_none() { self.byte_error = Some(format!("[driver][timer] the loop asked its driver to wait at most {}us, the driver's wait system call was made with a time-out of {} ms{}", d.as_micros(), timeout_ms, if timeout_ms < 0 { " (for ever)" } else { "" })); }
+      }
+    }
+    let k = self.sys_waits_done; self.sys_waits_done += 1;
+    if let Some((at, kind)) = self.poll_fault {
+      if at == k && !self.hw_failed {
+        self.hw_failed = true;
+        self.stats.os_poll_fault[(kind % 3) as usize] += 1; self.stats.io_error += 1;
+        self.trace.push(Item::Fail { what: "poll (the wait system call fails under the real driver)" });
+        self.sys_answer = Some(KAns::Error);
+        unsafe { set_errno([libc::EBADF, libc::EINVAL, libc::EFAULT][(kind % 3) as usize]); }
+        return -1;
+      }
+    }
+    let t_in = self.now();
+    let deadline = if timeout_ms < 0 { None } else { Some(t_in.saturating_add(timeout_ms as u64 * 1000)) }.filter(|d| *d - t_in < 1_000_000_000_000);
+    // what is ready at entry is reported at once (this is also where the kernel drops a stale edge:
+    // data that arrived during the previous drain and was consumed by it)
+    let mut first = true;
+    loop {
+      if first || self.kbd_notify || self.tab_notify {
+        let had = self.kbd_notify || self.tab_notify;
+        let n = unsafe { call.probe() };
+        self.kbd_notify = false; self.tab_notify = false;
+        if n > 0 { self.stats.sys_wait_events += 1; let ds = self.devices_in_answer(call, n); self.sys_answer = Some(KAns::Events(ds)); return n; }
+        if n < 0 { crate::engine::HARNESS_FAULTS.fetch_add(1, std::sync::atomic::Ordering::Relaxed); self.sys_answer = Some(KAns::Error); return n; }
+        if had { self.stats.sys_stale_dropped += 1; }
+        first = false;
+        if let Some(d) = deadline { if self.now() >= d && timeout_ms > 0 { self.stats.sys_wait_timeouts += 1; self.stats.timer_ticks += 1; self.sys_answer = Some(KAns::Zero); return 0; } }
+        if timeout_ms == 0 { self.sys_answer = Some(KAns::Zero); return 0; }
+      }
+      let now = self.now();
+      let next_arrival = self.next_event_time();
+      let horizon = match (next_arrival, deadline) { (Some(a), Some(d)) => Some(a.min(d)), (Some(a), None) => Some(a), (None, Some(d)) => Some(d), (None, None) => None };
+      if self.interrupts < self.cfg.max_interrupts && self.tape.fault(self.cfg.p_eintr) {
+        // a signal ends the system call at an arbitrary instant of the wait
+        self.interrupts += 1;
+        if let Some(h) = horizon { if h > now { let to = now + self.tape.below(h - now); self.advance(to); } }
+        self.stats.eintr += 1;
+        if !(self.kbd_notify || self.tab_notify) { self.stats.sys_wait_eintr += 1; self.sys_answer = Some(KAns::Eintr); unsafe { set_errno(libc::EINTR); } return -1; }
+        continue;
+      }
+      if self.tape.fault(self.cfg.p_spurious_ready) {
+        // a readiness report with nothing behind it, fabricated the way the kernel would report the descriptor
+        if let Some(h) = horizon { if h > now { let to = now + self.tape.below(h - now); self.advance(to); } }
+        if self.kbd_notify || self.tab_notify { continue; }
+        let tablet = self.has_tablet && !self.tab_ended && self.tape.below(2) == 1;
+        let (kfd, tfd) = self.bytes.as_ref().map(|b| b.device_fds()).unwrap_or((-1, -1));
+        let fd = if tablet { tfd } else { kfd };
+        let done = unsafe { match call {
+          crate::sysseam::WaitCall::Epoll { events, maxevents, .. } => match crate::sysseam::epoll_registration(fd) {
+            Some((_, data)) if *maxevents > 0 => { std::ptr::write_unaligned(*events, libc::epoll_event { events: libc::EPOLLIN as u32, u64: data }); true }
+            _ => false },
+          crate::sysseam::WaitCall::Poll { fds, nfds } => { let mut hit = false; for i in 0..*nfds as usize { let p = fds.add(i); let mut f = std::ptr::read_unaligned(p); f.revents = 0; if f.fd == fd && !hit { f.revents = libc::POLLIN; hit = true; } std::ptr::write_unaligned(p, f); } hit }
+        } };
+        if done { self.stats.spurious_ready += 1; self.stats.sys_fabricated_ready += 1; self.sys_answer = Some(KAns::Events(vec![if tablet { VDevice::Tablet } else { VDevice::Keyboard }])); return 1; }
+        continue;
+      }
+      match (next_arrival, deadline) {
+        (Some(a), d) if d.map(|d| a <= d).unwrap_or(true) => { self.advance(a); if !(self.kbd_notify || self.tab_notify) { /* an arrival on a dead descriptor: keep waiting */ } }
+        (None, Some(_)) if self.extra_ticks == 0 => { if self.kbd_ended { self.sys_stall = true; self.stats.stalled += 1; unsafe { set_errno(libc::EBADF); } self.sys_answer = Some(KAns::Error); return -1; } self.unplug_keyboard_now(); }
+        (_, Some(d)) => {
+          if next_arrival.is_none() { self.extra_ticks -= 1; }
+          let mut to = d;
+          if self.tape.fault(self.cfg.p_oversleep) { to += self.tape.below(2000); self.stats.oversleep += 1; }
+          if let Some(a) = next_arrival { if a <= to { to = a; } }
+          self.advance(to);
+          if !(self.kbd_notify || self.tab_notify) { self.stats.sys_wait_timeouts += 1; self.stats.timer_ticks += 1; self.sys_answer = Some(KAns::Zero); return 0; }
+        }
+        (None, None) => { if self.kbd_ended { self.sys_stall = true; self.stats.stalled += 1; unsafe { set_errno(libc::EBADF); } self.sys_answer = Some(KAns::Error); return -1; } self.unplug_keyboard_now(); }
+        _ => unreachable!(),
+      }
+    }
+  }
+
+  fn poll_through_real_driver(&mut self, timeout: Option<Duration>) -> Result<VPoll, String> {
+    self.in_drain = false;
+    let t_in = self.now();
+    let to_us = timeout.map(|d| d.as_micros() as u64);
+    if self.trace.len() > self.cap { self.stats.trace_cap_hit += 1; self.unplug_keyboard_now(); }
+    self.stats.sys_polls_through_real_driver += 1;
+    self.sys_asked = timeout; self.sys_answer = None; self.sys_stall = false;
+    let this: *mut Sim<'a> = self;
+    // from here on the simulator is reached through `this` only: the wait handler re-enters it
+    let r = unsafe {
+      let mut drv = match (*this).bytes.as_mut().and_then(|b| b.take_driver()) { Some(d) => d, None => return Err("simulator: syspoll run without a real driver".into()) };
+      crate::sysseam::arm_wait(this as *mut (), Sim::<'static>::wait_trampoline);
+      let r = drv.poll(timeout);
+      crate::sysseam::disarm_wait();
+      (*this).bytes.as_mut().unwrap().put_driver(drv);
+      r
+    };
+    self.sys_asked = None;
+    if self.sys_stall { return Err("simulator: runaway loop (the keyboard is gone and the loop was notified, but it waits again without having read the end of the device)".to_string()); }
+    let answer = self.sys_answer.take();
+    let note = |s: &mut Sim<'a>, m: String| { if s.byte_error.is_none() { s.byte_error = Some(m); } };
+    let res = match r {
+      Err(e) => {
+        return if answer == Some(KAns::Error) { Err(format!("{}: {}", INJECTED, e)) } else { Err(e) };
+      }
+      Ok(VPoll::Devices(ds)) => {
+        match &answer {
+          Some(KAns::Events(kd)) => {
+            for d in kd { if !ds.contains(d) { note(self, format!("[driver]{} the kernel reported {:?} ready, the real driver's poll told the loop only {:?}", if *d == VDevice::Tablet { "[tablet]" } else { "" }, kd, ds)); } }
+            for d in &ds { if !kd.contains(d) { note(self, format!("[driver] the kernel reported {:?} ready, the real driver's poll told the loop {:?}", kd, ds)); } }
+          }
+          Some(KAns::Zero) => note(self, format!("[driver] the wait system call timed out with nothing ready, the real driver's poll told the loop {:?}", ds)),
+          Some(KAns::Eintr) => note(self, format!("[driver] the wait system call was interrupted by a signal, the real driver's poll told the loop {:?}", ds)),
+          _ => {}
+        }
+        if self.kbd_ready.len() + self.tab_ready.len() >= 2 { self.stats.multi_event_wakeups += 1; }
+        if self.kbd_ready.len() + self.tab_ready.len() >= 16 { self.stats.max_events_one_wakeup += 1; }
+        if ds.len() == 2 { self.stats.both_devices_ready += 1; if ds[0] == VDevice::Tablet { self.stats.order_flipped += 1; } }
+        self.in_drain = true;
+        PollRes::Devices(ds)
+      }
+      Ok(VPoll::TimedOut) => {
+        match &answer {
+          Some(KAns::Events(kd)) => note(self, format!("[driver]{} the kernel reported {:?} ready, the real driver's poll told the loop it timed out", if kd.contains(&VDevice::Tablet) { "[tablet]" } else { "" }, kd)),
+          _ => {}
+        }
+        // "waits for at most delay_ms and then writes": a time-out reported before the time the loop
+        // asked for has passed (less the millisecond granularity of the system call) is early
+        if let Some(us) = to_us { if answer != Some(KAns::Error) && self.now() + 1000 <= t_in.saturating_add(us) && us < 1_000_000_000_000 {
+          note(self, format!("[driver][timer] the loop asked to wait {}us at t={}us; its driver reported a time-out at t={}us, {}us early{}", us, t_in, self.now(), t_in + us - self.now(), if answer == Some(KAns::Eintr) { " (the wait system call had been interrupted by a signal)" } else { "" }));
+        } }
+        PollRes::TimedOut
+      }
+      Ok(VPoll::Interrupted) => {
+        match &answer {
+          Some(KAns::Events(kd)) => note(self, format!("[driver]{} the kernel reported {:?} ready, the real driver's poll told the loop it was interrupted", if kd.contains(&VDevice::Tablet) { "[tablet]" } else { "" }, kd)),
+          _ => {}
+        }
+        PollRes::Interrupted
+      }
+    };
+    self.trace.push(Item::Poll { t_in, timeout: to_us, res: res.clone(), t_out: self.now() });
+    Ok(match res { PollRes::Devices(ds) => VPoll::Devices(ds), PollRes::TimedOut => VPoll::TimedOut, PollRes::Interrupted => VPoll::Interrupted })
+  }
+}
+
 impl<'a> VerifDriver for Sim<'a> {
   fn register_poll(&mut self) -> Result<(), String> {
     self.maybe_fail("register_poll")?;
@@ -350,6 +557,7 @@ impl<'a> VerifDriver for Sim<'a> {
 
   fn poll(&mut self, timeout: Option<Duration>) -> Result<VPoll, String> {
     self.maybe_fail("poll")?;
+    if self.syspoll && self.bytes.is_some() && !self.hw_failed { return self.poll_through_real_driver(timeout); }
     self.in_drain = false;
     let t_in = self.now();
     let to_us = timeout.map(|d| d.as_micros() as u64);
